@@ -328,6 +328,9 @@ def run_program(loop, ops):
         if op["kind"].startswith("hint") and after != before:
             ch = {k: (before[k], after[k]) for k in NAMES if before[k] != after[k]}
             problem = dict(problem="a SET_VAR hint outlives its statement", changed=repr(ch))
+        if op["kind"] == "set" and oc[0] == "Failed" and after != before and problem is None:
+            ch = {k: (before[k], after[k]) for k in NAMES if before[k] != after[k]}
+            problem = dict(problem="a refused SET statement left some of its assignments behind", statement=op["sql"], changed=repr(ch))
         ro = {k: after[k] for k in READONLY if after[k] != (LOGIN if k == "external_user" else SYSTEM_VARIABLES[k][1])}
         if ro and problem is None:
             problem = dict(problem="a read-only variable was changed by a client statement", changed=repr(ro))
@@ -455,6 +458,13 @@ def run(ctx: core.Ctx):
             [dict(kind="hint-get", sql="SELECT /*+ SET_VAR(sql_mode = 'H') SET_VAR(version = '9') */ @@sql_mode", names=["sql_mode"],
                   term=f"(OHinted [[[({S('sql_mode')}, RVal (VStr {S('H')}))]; [({S('version')}, RVal (VStr {S('9')}))]]] (InGet [{S('sql_mode')}]))")],
         ]
+        # one item that assigns several variables and fails at the last one: SET CHARACTER SET copies character_set_database
+        # (free-form, accepted) into the validated character_set_connection
+        for kw, cs in (("CHARACTER SET", "latin1"), ("CHARSET", "utf8mb4")):
+            fixed.append([dict(kind="set", sql="SET character_set_database = 'nonsense'",
+                               term=f"(OSet [IVar false ScSession {S('character_set_database')} (RVal (VStr {S('nonsense')}))])"),
+                          dict(kind="set", sql=f"SET {kw} {cs}", term=f"(OSet [ICharset (Some {S(cs)})])"),
+                          dict(kind="set", sql=f"SET sql_mode = 'x', {kw} {cs}" if False else f"SET {kw} '{cs}'", term=f"(OSet [ICharset (Some {S(cs)})])")])
         for ro_name in READONLY:
             for rhs_sql, rhs_term in (("DEFAULT", "RDefault"), ("NULL", "(RVal VNone)"), ("'x'", f"(RVal (VStr {S('x')}))")):
                 fixed.append([dict(kind="set", sql=f"SET {ro_name} = {rhs_sql}", term=f"(OSet [IVar false ScSession {S(ro_name)} {rhs_term}])"),
